@@ -356,7 +356,7 @@ impl<T: UciTx, H: Heuristic, M: MoveOrder> Search<T, H, M> {
         let halfmove_clock = self.state.bitboard.halfmove_clock;
         self.state.zobrist_history.set(ply_clock, zobrist_hash);
 
-        if self.state.zobrist_history.count_repetitions(ply_clock, halfmove_clock as u16) >= 3 {
+        if ply_depth_from_root > 0 && self.state.zobrist_history.count_repetitions(ply_clock, halfmove_clock as u16) >= 3 {
             let contempt_factor_factor = if ply_depth_from_root % 2 == 0 { 1 } else { -1 };
 
             return ValuedMove::leaf(self.heuristic.draw_score() + contempt_factor_factor * self.options.contempt_factor);
